@@ -367,3 +367,123 @@ async def text_flow_case(rng):
         conn.abort()
         wire.cut_link()
         await memwire.settle(4)
+
+
+async def reredirect_case(rng):
+    """The output of a process is redirected to a consumer that stops reading (the process is paused, as it
+    should be), then re-redirected to a consumer that keeps reading: from then on the window must be replenished
+    and everything the peer writes must arrive, followed by EOF and the exit status."""
+    import asyncssh
+    window = rng.choice([512, 1024, 4096])
+    # enough packets (each at most one window long) to push the first consumer's queue over its high-water mark
+    part_a = bytes((i * 13) % 251 for i in range(rng.choice([24, 40]) * window))
+    part_b = bytes((i * 7 + 3) % 251 for i in range(rng.choice([2, 5]) * window + 17))
+    go = asyncio.Event()
+
+    async def handle(process):
+        process.stdout.write(part_a)
+        await go.wait()
+        process.stdout.write(part_b)
+        process.exit(0)
+
+    class Stuck:
+        def __init__(self):
+            self.got = bytearray()
+            self.block = asyncio.Event()
+
+        async def write(self, data):
+            self.got += data
+            await self.block.wait()             # never drains
+
+        async def close(self):
+            pass
+
+    class Eager:
+        def __init__(self):
+            self.got = bytearray()
+            self.closed = False
+
+        async def write(self, data):
+            self.got += data
+
+        async def close(self):
+            self.closed = True
+
+    class Srv(asyncssh.SSHServer):
+        def begin_auth(self, u):
+            return False
+
+    tun, wire, acc, conn = await memwire.connected_pair(Srv, srv_kw={'process_factory': handle, 'encoding': None})
+    stuck, eager = Stuck(), Eager()
+    cfg = {'kind': 'reredirect', 'window': window, 'part_a': len(part_a), 'part_b': len(part_b)}
+    try:
+        proc = await conn.create_process('x', encoding=None, window=window, stdout=stuck)
+        await _turns(lambda: False, lambda: (len(wire.log['c']), len(wire.log['s']), len(stuck.got)), quiet_limit=300)
+        await proc.redirect_stdout(eager)
+        go.set()
+        # (wait_closed() would also wait for the first consumer, which never drains: the new target seeing part B
+        # and its EOF is what is required)
+        await _turns(lambda: eager.closed, lambda: (len(wire.log['c']), len(wire.log['s']), len(eager.got)))
+        if not eager.closed:
+            return (f'after re-redirecting a paused stream to a consumer that keeps reading, the transfer stalled: the new '
+                    f'target has {len(eager.got)} bytes, part B ({len(part_b)} bytes) never arrived (window {window})'), cfg
+        if not bytes(eager.got).endswith(part_b):
+            return f'the new redirect target got {len(eager.got)} bytes not ending with part B', cfg
+        return None, cfg
+    finally:
+        stuck.block.set()
+        conn.abort()
+        wire.cut_link()
+        await memwire.settle(4)
+
+
+async def drain_case(rng):
+    """write() more than the peer's window, then drain(), under every write-buffer-limit setting: drain() must
+    return once the peer has consumed the data (and the data must be complete)."""
+    import asyncssh
+    window = rng.choice([64, 1024, 4096])
+    limits = rng.choice([None, (0,), (0, 0), (8, 0), (1,), (3,), (4096, 0), (100, 100), (2 * window, window)])
+    total = rng.choice([window + 1, 3 * window, 7 * window + 5])
+    res = {'n': 0, 'done': False}
+
+    async def handle(stdin, stdout, stderr):
+        while True:
+            d = await stdin.read(rng.choice([1, 100, 65536]))
+            if not d:
+                break
+            res['n'] += len(d)
+        res['done'] = True
+        stdout.channel.exit(0)
+
+    class Srv(asyncssh.SSHServer):
+        def begin_auth(self, u):
+            return False
+
+    tun, wire, acc, conn = await memwire.connected_pair(
+        Srv, srv_kw={'session_factory': handle, 'encoding': None, 'window': window})
+    cfg = {'kind': 'drain', 'window': window, 'limits': list(limits) if limits else None, 'total': total}
+    try:
+        stdin, stdout, stderr = await conn.open_session(encoding=None)
+        if limits is not None:
+            stdin.channel.set_write_buffer_limits(*limits)
+        rounds = []
+        for k in range(2):
+            stdin.write(bytes((i * 3 + k) % 251 for i in range(total)))
+            t = asyncio.ensure_future(stdin.drain())
+            await _turns(t.done, lambda: (len(wire.log['c']), len(wire.log['s']), res['n']))
+            if not t.done():
+                t.cancel()
+                return (f'drain() after writing {total} bytes (round {k + 1}) never returned although the peer consumed '
+                        f'{res["n"]} bytes; write buffer limits {limits}, peer window {window}'), cfg
+            if t.exception():
+                return f'drain() raised {t.exception()!r}', cfg
+            rounds.append(res['n'])
+        stdin.write_eof()
+        await _turns(lambda: res['done'], lambda: (len(wire.log['c']), len(wire.log['s']), res['n']))
+        if not res['done'] or res['n'] != 2 * total:
+            return f'peer got {res["n"]} of {2 * total} bytes (limits {limits}, window {window})', cfg
+        return None, cfg
+    finally:
+        conn.abort()
+        wire.cut_link()
+        await memwire.settle(4)
